@@ -84,7 +84,30 @@ SFloatMinMax == [BareFloat EXCEPT !.min = Some(VFloat(25)), !.max = Some(VFloat(
 \* scalars whose interplay of bounds, tolerance and pinned values matters to substitution
 SubScalars == {SFloatMinPrec, SFloatMaxPrec, SFloatMinMax, SFloat01, SInt05, SStrAlpha, SNullableStr}
 
-Focus == AnysOver({R_DictRelaxed, R_Dict, SInt1}) \cup
+\* the less used types as members of containers: bytes (also the empty, falsy one), uuid4, datetime,
+\* date, bool, none, a float on a precision grid -- pinned and unpinned
+SBytesA == [BareBytes EXCEPT !.value = Some(VBytes(<<A>>))]
+SBytesEmpty == [BareBytes EXCEPT !.value = Some(VBytes(<<>>))]
+SUuid0 == [BareUuid EXCEPT !.value = Some(VUuid(4, 0))]
+SDatetime0 == [BareDatetime EXCEPT !.value = Some(VDatetime(0))]
+SDate0 == [BareDate EXCEPT !.value = Some(VDate(0))]
+SBoolF == [BareBool EXCEPT !.value = Some(VBool(FALSE))]
+SFloatPrec == [BareFloat EXCEPT !.value = Some(VFloat(25)), !.precision = Some(VInt(1))]
+RarePinned == {SBytesA, SBytesEmpty, SUuid0, SDatetime0, SDate0, SBoolF, SFloatPrec}
+RareBare == {BareBytes, BareUuid, BareDatetime, BareDate, BareBool, BareNone}
+RareContainers ==
+  {TypedList(e) : e \in RarePinned \cup RareBare}
+  \cup {[TypedList(e) EXCEPT !.len = Some(VInt(2))] : e \in {SBytesA, SDate0, BareBool}}
+  \cup {ElemsList(<<SBytesA, SDatetime0, SUuid0>>), ElemsList(<<SDate0, VEllipsis>>), ElemsList(<<VEllipsis, SBytesEmpty>>),
+        ElemsList(<<VEllipsis, SBoolF, SDate0, VEllipsis>>)}
+  \cup {DictOf(<<DKey(KA, SBytesA, FALSE), DKey(KB, SDatetime0, TRUE)>>),
+        DictOf(<<DKey(KA, SUuid0, TRUE), DKey(KB, SDate0, FALSE), DKey(VEllipsis, VEllipsis, FALSE)>>),
+        DictOf(<<DKey(VInt(1), SBoolF, TRUE), DKey(VNone, SBytesEmpty, FALSE)>>),
+        DictOf(<<DKey(KA, BareBytes, FALSE), DKey(KB, BareDate, TRUE)>>)}
+  \cup {AnyOf(<<SBytesA, SDate0>>), AnyOf(<<SDatetime0, SDate0, SUuid0, BareNone>>), AnyOf(<<BareBool, SFloatPrec>>),
+        SAlias("T", SBytesA), SAlias("T", AnyOf(<<SDate0, BareNone>>))}
+
+Focus == RareContainers \cup AnysOver({R_DictRelaxed, R_Dict, SInt1}) \cup
          ListsOver({R_DictRelaxed}, {R_DictRelaxed, R_Any}) \cup
          DictsOver({R_Any, R_Body}) \cup
          \* nullable and optional-none members: a given None is a value like any other
